@@ -257,7 +257,7 @@ impl Property for C06 {
 
     fn cases(&self, tier: Tier) -> u64 {
         match tier {
-            Tier::Quick => 60_000,
+            Tier::Quick => 180_000,
             Tier::Thorough => 1_500_000,
         }
     }
